@@ -278,6 +278,7 @@ class Analysis:
         self.cur_rng = None
         self.mem_log = []
         self.raw_parts_log = []
+        self.views = {}          # view object (slice::from_raw_parts) -> (base object, byte offset IntV, element size)
         self.facts = []          # affine forms known to be >= 0 (table relations, domain assumptions)
         self.loop_atoms = {}
         self.loop_atom_info = {}
@@ -1085,6 +1086,14 @@ class Analysis:
                     v = TOP
             elif k == "index":
                 idx = self.read_local(st, fid, e["l"], fn)
+                if type(v) is SliceV and v.obj in self.views and self._rec and type(idx) is IntV:
+                    # checked read through a reinterpreting view: logged as a read of the underlying object
+                    bobj, boff, es = self.views[v.obj]
+                    rng = self.rng_fn(st)
+                    pos = idx if v.off is None else add(idx, v.off)
+                    off = norm(add(mul(pos, IntV.const(es)), boff), rng)
+                    self.mem_log.append({"fn": fn.key, "site": "view-index", "obj": bobj, "off": off, "width": es,
+                                         "write": False, "what": "checked index through a from_raw_parts view", "loc": None})
                 v = self.index_value(st, v, idx)
             elif k == "cindex":
                 v = self.index_value(st, v, IntV.const(e["off"])) if not e["from_end"] else self.index_value(st, v, IntV.top())
